@@ -403,11 +403,19 @@ func (w *Workspace) addMissingReachableLocked(reachable map[string]bool) bool {
 		if w.index.FileIndex(path) != nil {
 			continue
 		}
-		content, err := os.ReadFile(path)
-		if err != nil {
-			continue
+		// a file that is open in the editor joins the tree with the editor's text
+		text, open := "", false
+		if w.loader != nil {
+			text, open = w.loader.OpenContent(path)
 		}
-		fileIndex, journal, _ := BuildFileIndexFromContent(path, string(content))
+		if !open {
+			content, err := os.ReadFile(path)
+			if err != nil {
+				continue
+			}
+			text = string(content)
+		}
+		fileIndex, journal, _ := BuildFileIndexFromContent(path, text)
 		w.index.SetFileIndex(path, fileIndex)
 		w.updateIncludeEdgesLocked(path, nil, fileIndex.Includes)
 		w.updateResolvedLocked(path, journal)
